@@ -90,7 +90,10 @@ func stepInstancesDiv(fn string, tier string, seed int64, hist int64, scale, div
 			if cat != 1 && cat != 7 {
 				r /= div
 			}
-			if tier != "thorough" && rng.Intn(1000) >= r {
+			if tier == "thorough" {
+				r *= 8 // thorough: eight times the quick sampling rates (every special category completely)
+			}
+			if tier != "exhaustive" && rng.Intn(1000) >= r {
 				continue
 			}
 			p := map[string]int64{"stm": int64(stm), "from": int64(m.from), "to": int64(m.to), "promo": int64(m.promo), "hist": hist}
@@ -112,7 +115,7 @@ func init() {
 			Bounds: []string{
 				"one make+undo step from an ARBITRARY valid position (all 64 cells, castling, e.p., clocks symbolic) for a concrete (side, from, to, promotion) case; nesting to any depth follows by induction because the restored state is identical",
 				"hash history: 2 arbitrary earlier entries in the case split; additionally histories of 0, 126, 127 and 128 earlier entries (around the slice capacity 128) for three moves; longer histories follow from the same step since undo pops exactly what make pushed",
-				"quick tier: every castling case, half of the double pushes and a seeded (VERIF_SEED) sample of promotion, en-passant, rook-home, king-home and ordinary geometric (from,to) cases; thorough: all 3760 (side, from, to, promotion) cases",
+				"quick tier: every castling case, half of the double pushes and a seeded (VERIF_SEED) sample of promotion, en-passant, rook-home, king-home and ordinary geometric (from,to) cases; thorough: eight times the quick sampling rates (all castling, double-push, promotion and en-passant cases, ~10% of the ordinary ones); tier `exhaustive` runs all 3760 (side, from, to, promotion) cases (hours)",
 			},
 			Assumptions: []string{"validity predicate of the property (VpValid) and pseudo-legality by the mailbox FIDE specification (VpPseudoLegal)"},
 		}
@@ -146,7 +149,7 @@ func init() {
 		s := stepSpec("C02")
 		s.Bounds = []string{
 			"one MakeMove step from an ARBITRARY valid position (64 symbolic cells, castling, e.p., clocks, 2 earlier history entries) for a concrete (side, from, to, promotion) case; game histories of any length follow by induction because the successor is asserted valid again",
-			"quick: all castling cases, half of the double pushes, seeded sample of the other categories; thorough: all 3760 cases",
+			"quick: all castling cases, a quarter of the double pushes, seeded sample of the other categories; thorough: eight times the quick rates; tier `exhaustive`: all 3760 cases",
 			"halfmove clock 0..127, fullmove number 1..2^31-1",
 		}
 		s.Exclusions = []string{"fifty-clock-wrap"}
@@ -154,14 +157,21 @@ func init() {
 		s.Witnesses = map[string]run.Instance{
 			"fifty-clock-wrap": {Pkg: "board", Func: "VpH_C02_step", Params: map[string]int64{"stm": 0, "from": 6, "to": 21, "promo": 0, "hist": 2}},
 		}
-		s.Outside = []string{"the UCI text layer beyond parseUCIMove (string splitting in handlePosition)"}
+		s.Pkgs = append(s.Pkgs, "uci")
+		for stm := int64(0); stm < 2; stm++ {
+			for _, n := range []int64{3, 4, 5, 6} {
+				s.Instances = append(s.Instances, run.Instance{Pkg: "uci", Func: "VpH_C02_ucimove", Params: map[string]int64{"stm": stm, "len": n}, Opt: run.Options{TimeoutMs: 300000}})
+			}
+		}
+		s.Bounds = append(s.Bounds, "UCI move strings: every string of 3, 4, 5 and 6 bytes (all bytes symbolic) against an arbitrary valid position: accepted only through the pseudo-legality gate, well-formed strings accepted iff the spelled move passes the gate and returned as spelled, other lengths rejected; applyMoves is then the iteration of the MakeMove step")
+		s.Outside = []string{"string splitting in handlePosition; malformed strings whose characters alias into the board by byte wrap-around (e.g. file letter 'i') are only required to pass the pseudo-legality gate, not to be rejected"}
 		return s
 	}
 	Reg["C04"] = func(tier string, seed int64) *Spec {
 		s := stepSpec("C04")
 		s.Bounds = []string{
 			"one MakeMove / MakeNullMove step from an ARBITRARY valid position whose current hash equals the from-scratch hash; any interleaving of moves and null moves follows by induction",
-			"quick: seeded sample of the (side, from, to, promotion) case split (all castling cases); thorough: all 3760 cases",
+			"quick: seeded sample of the (side, from, to, promotion) case split (all castling cases); thorough: eight times the quick rates; tier `exhaustive`: all 3760 cases",
 		}
 		s.Assumptions = append(s.Assumptions, "64-bit Zobrist keys are taken from the real init code (native dump); hash equality is exact term equality, no collision assumption is needed for this property")
 		s.Instances = stepInstances("VpH_C04_hash", tier, seed, 2, 1, nil)
